@@ -803,7 +803,7 @@ func (req *Request) mergeDistributedResponse(collectedDatasets chan ResultSet, c
 					for x := range hasColumns {
 						keys = append(keys, interface2stringNoDedup(row[x]))
 					}
-					key = strings.Join(keys, ListSepChar1)
+					key = joinStatsKey(keys)
 				}
 				if _, ok := req.StatsResult.Stats[key]; !ok {
 					req.StatsResult.Stats[key] = createLocalStatsCopy(req.Stats)
